@@ -1,6 +1,7 @@
 package props
 
 import (
+	"runtime"
 	"encoding/json"
 	"fmt"
 	"hash/fnv"
@@ -66,6 +67,11 @@ func runOne(t *testing.T, sc *Scenario, tape *core.Tape, tier string) (res Resul
 			msg := fmt.Sprint(r)
 			if strings.Contains(msg, "deadlock") && strings.Contains(msg, "bubble") {
 				res.Leaked = true
+				if os.Getenv("VERIF_DEBUG") == "1" {
+					buf := make([]byte, 1<<20)
+					n := runtime.Stack(buf, true)
+					fmt.Fprintf(os.Stderr, "LEAKED BUBBLE seed=%d: %s\n%s\n", res.Seed, msg, buf[:n])
+				}
 				return
 			}
 			res.PanicText = msg + "\n" + string(debug.Stack())
@@ -73,6 +79,15 @@ func runOne(t *testing.T, sc *Scenario, tape *core.Tape, tier string) (res Resul
 	}()
 	synctest.Test(t, func(t *testing.T) {
 		sim := core.NewSim(tape)
+		if sc.World == "S" || sc.World == "Y" {
+			// which of the mechanically inserted park points (locks, atomics) are live in this run
+			switch tape.Draw("auto-yield", 4) {
+			case 2:
+				sim.AutoMode, sim.AutoSalt = 1, uint64(tape.Draw("auto-salt", 1<<16))
+			case 3:
+				sim.AutoMode = 2
+			}
+		}
 		installHooks(sim, sc.Hooks)
 		defer installHooks(nil, false)
 		func() {
@@ -91,6 +106,9 @@ func runOne(t *testing.T, sc *Scenario, tape *core.Tape, tier string) (res Resul
 		res.Aborted = sim.Aborted
 		res.Faults = sim.Faults
 		res.Probes = sim.Probes
+		if n := sim.AutoHits(); n > 0 {
+			res.Probes["auto-park-points-taken"] += n
+		}
 		res.Steps = sim.Steps
 		res.Preempts = sim.Preempts
 		res.VirtualNS = int64(sim.Now())
@@ -275,6 +293,11 @@ func TestWorker(t *testing.T) {
 			break
 		}
 		seed := core.DeriveSeed(base, prop, uint64(r))
+		if raw := os.Getenv("VERIF_RAW_SEED"); raw != "" {
+			// diagnosis: run exactly this derived seed (as printed for aborted / leaked runs), once
+			seed, _ = strconv.ParseUint(raw, 10, 64)
+			to = r + 1
+		}
 		if progress != nil {
 			fmt.Fprintf(progress, "BEGIN %d %d\n", r, seed)
 		}
